@@ -1,8 +1,197 @@
 import DepsDev.Drive.Loop
+import DepsDev.Model.Resolve.ApiClientMatch
 open DepsDev
+open DepsDev.Model.Resolve.ApiClient
 
-/-- Stub: replaced by the property's builder. -/
-def handleC18 : List String → String
-  | _ => "bad-op"
+/-! Line-protocol driver for C18: decodes the universe and the call sequence of
+harness/cmd/c18 (universe.go has the wire grammar), runs the calls on the model of the
+API client over the service the universe denotes, and prints every call's result
+exactly as the harness does. -/
+
+namespace C18Driver
+
+structure UVer where
+  version : Bytes
+  isDefault : Bool
+  noNpm : Bool
+  regs : List Bytes
+  deps : Deps
+  bundled : List Bundle
+
+structure UPkg where
+  name : Bytes
+  vers : List UVer
+
+abbrev Universe := List UPkg
+
+/-! ### token parser -/
+
+abbrev P (α : Type) := List String → Option (α × List String)
+
+def unhex (s : String) : Option Bytes := if s.isEmpty then none else Bytes.ofHex s
+
+def pStr : P Bytes
+  | [] => none
+  | t :: ts => (unhex t).map (·, ts)
+
+/-- canonical decimal count: no sign, no leading zero, at most 4 digits. -/
+def pNum : P Nat
+  | [] => none
+  | t :: ts =>
+    let cs := t.toList
+    if cs.isEmpty || cs.length > 4 || (cs.length > 1 && cs.head? == some '0') || !cs.all Char.isDigit then none
+    else some (cs.foldl (fun n c => n * 10 + (c.toNat - 48)) 0, ts)
+
+def pBool : P Bool
+  | "0" :: ts => some (false, ts)
+  | "1" :: ts => some (true, ts)
+  | _ => none
+
+def pMany {α} (p : P α) : Nat → P (List α)
+  | 0, ts => some ([], ts)
+  | n + 1, ts => do
+    let (x, ts) ← p ts
+    let (xs, ts) ← pMany p n ts
+    some (x :: xs, ts)
+
+def pCounted {α} (p : P α) : P (List α) := fun ts => do
+  let (n, ts) ← pNum ts
+  pMany p n ts
+
+def pDep : P Dep := fun ts => do
+  let (n, ts) ← pStr ts
+  let (r, ts) ← pStr ts
+  some (⟨n, r⟩, ts)
+
+def pDeps : P Deps := fun ts => do
+  let (a, ts) ← pCounted pDep ts
+  let (b, ts) ← pCounted pDep ts
+  let (c, ts) ← pCounted pDep ts
+  let (d, ts) ← pCounted pDep ts
+  let (e, ts) ← pCounted pStr ts
+  some (⟨a, b, c, d, e⟩, ts)
+
+def pBundle : P Bundle := fun ts => do
+  let (p, ts) ← pStr ts
+  let (n, ts) ← pStr ts
+  let (v, ts) ← pStr ts
+  let (d, ts) ← pDeps ts
+  some (⟨p, n, v, d⟩, ts)
+
+def pVer : P UVer := fun ts => do
+  let (v, ts) ← pStr ts
+  let (dflt, ts) ← pBool ts
+  let (nonpm, ts) ← pBool ts
+  let (regs, ts) ← pCounted pStr ts
+  let (d, ts) ← pDeps ts
+  let (bs, ts) ← pCounted pBundle ts
+  some (⟨v, dflt, nonpm, regs, d, bs⟩, ts)
+
+def pPkg : P UPkg := fun ts => do
+  let (n, ts) ← pStr ts
+  let (vs, ts) ← pCounted pVer ts
+  some (⟨n, vs⟩, ts)
+
+def decUniverse (s : String) : Option Universe :=
+  match pCounted pPkg (s.splitOn ",") with
+  | some (u, []) => some u
+  | _ => none
+
+def decVType : String → Option VType
+  | "c" => some .concrete
+  | "r" => some .requirement
+  | _ => none
+
+def decCall (s : String) : Option Call :=
+  match s.splitOn ":" with
+  | ["s", n] => (unhex n).map Call.versions
+  | [k, n, t, v] => do
+    let n ← unhex n
+    let t ← decVType t
+    let v ← unhex v
+    match k with
+    | "v" => some (.version ⟨n, t, v⟩)
+    | "r" => some (.requirements ⟨n, t, v⟩)
+    | "m" => some (.matching ⟨n, t, v⟩)
+    | _ => none
+  | _ => none
+
+def decCalls (s : String) : Option (List Call) := (s.splitOn ",").mapM decCall
+
+def decSegs (s : String) : Option (List Call) := do
+  let segs ← (s.splitOn ";").mapM decCalls
+  some segs.flatten
+
+/-! ### the service a universe denotes (first package / first version of a name wins) -/
+
+def findVer (u : Universe) (name ver : Bytes) : Option UVer := do
+  let p ← u.find? (·.name == name)
+  p.vers.find? (·.version == ver)
+
+def serviceOf (u : Universe) : Service where
+  getPackage name := (u.find? (·.name == name)).map fun p => p.vers.map fun v => ⟨v.version, v.isDefault⟩
+  getVersion name ver := (findVer u name ver).map fun v => ⟨v.isDefault, v.regs⟩
+  getRequirements name ver := (findVer u name ver).map fun v =>
+    if v.noNpm then none else some ⟨v.deps, v.bundled⟩
+
+/-! ### canonical dumps (fake.go) -/
+
+def optHx : Option Bytes → String
+  | none => "~"
+  | some b => Bytes.toHex b
+
+def b01 (b : Bool) : String := if b then "1" else "0"
+
+def dumpVK (vk : VersionKey) : String :=
+  Bytes.toHex vk.name ++ "/" ++ (match vk.vtype with | .concrete => "c" | .requirement => "r") ++ "/" ++ Bytes.toHex vk.version
+
+def dumpVersion (v : Version) : String :=
+  dumpVK v.key ++ "/t=" ++ optHx v.attrs.tags ++ "/g=" ++ optHx v.attrs.registries ++ "/d=" ++ optHx v.attrs.derivedFrom
+
+def dumpReq (r : ReqVer) : String :=
+  dumpVK r.key ++ "/m=" ++ b01 r.typ.dev ++ b01 r.typ.opt ++ "/s=" ++ optHx r.typ.scope ++ "/k=" ++ optHx r.typ.knownAs
+
+def dumpRes {α} (f : α → String) : Res α → String
+  | .ok a => f a
+  | .err => "err"
+  | .panic => "panic"
+
+def dumpObs : Obs → String
+  | .version r => dumpRes (fun v => "V" ++ dumpVersion v) r
+  | .versions r => dumpRes (fun vs => "L[" ++ "+".intercalate (vs.map dumpVersion) ++ "]") r
+  | .requirements r => dumpRes (fun rs => "R[" ++ "+".intercalate (rs.map dumpReq) ++ "]") r
+
+def runDump (u : Universe) (cs : List Call) : String :=
+  let r := runCalls ApiClientMatch.matchNPMRequirement (serviceOf u) Store.empty cs
+  "ok " ++ ",".intercalate (r.1.map dumpObs)
+
+def handle : List String → Option String
+  | ["apiclient", u, cs] => do
+    let u ← decUniverse u
+    let cs ← decCalls cs
+    some (runDump u cs)
+  | ["resolve", u, cs, n, v] => do
+    let u ← decUniverse u
+    let cs ← decCalls cs
+    let _ ← unhex n
+    let _ ← unhex v
+    some (runDump u cs)
+  | ["conc", u, segs] => do
+    let u ← decUniverse u
+    let cs ← decSegs segs
+    some (runDump u cs)
+  | ["racedet", u, segs] => do
+    let _ ← decUniverse u
+    let _ ← decSegs segs
+    -- the model's steps are atomic: it cannot exhibit a data race
+    some "ok races=0"
+  | ["classify", t] => do
+    let t ← unhex t
+    some ("ok " ++ b01 (hasRange t))
+  | _ => none
+
+end C18Driver
+
+def handleC18 (args : List String) : String := (C18Driver.handle args).getD "bad-op"
 
 def main : IO Unit := Drive.runDriver "C18" handleC18
